@@ -998,6 +998,7 @@ func runRate(in []string) (out []string) {
 	if rep < 1 {
 		rep = 1
 	}
+	rs, _ := strconv.ParseInt(p["rs"], 10, 64) // range start of the response (absent: 0)
 	tsl := trafficshape.NewListener(nullListener{})
 	defer tsl.Close()
 	h := trafficshape.NewHandler(tsl)
@@ -1015,7 +1016,7 @@ func runRate(in []string) (out []string) {
 				c := tsl.GetTrafficShapedConn(rc)
 				rc.ts = c
 				defer c.Close()
-				setContext(c, regs[0], 0, 0)
+				setContext(c, regs[0], rs, 0)
 				data := bodyBytes(uint64(i), n)
 				t0 := time.Now()
 				w, err := c.Write(data)
